@@ -48,8 +48,9 @@ type Spec struct {
 	Perm   uint32 `json:"perm"` // 0..07777
 	UID    uint32 `json:"uid"`
 	GID    uint32 `json:"gid"`
-	Sec    int64  `json:"sec"`  // mtime, seconds since the epoch (may be negative)
-	Nsec   int64  `json:"nsec"` // 0..999999999
+	Sec    int64  `json:"sec"`             // mtime, seconds since the epoch (may be negative)
+	Nsec   int64  `json:"nsec"`            // 0..999999999
+	Epoch  bool   `json:"epoch,omitempty"` // mtime is exactly the Unix epoch (Sec and Nsec are ignored)
 	Xattrs []XA   `json:"xattrs,omitempty"`
 	Size   int    `json:"size,omitempty"` // file: content length
 	Seed   uint64 `json:"seed,omitempty"` // file: content seed
@@ -203,7 +204,7 @@ const (
 
 // Expand turns a Spec into a consistent tree: names legal and unique per directory, ranges
 // clipped (owner 2^32-1 means "unchanged" to chown and is mapped to 2^32-2; mtime is clipped to
-// the ext4 range and the exact epoch becomes epoch+1ns), children sorted by name, xattrs sorted
+// the ext4 range and the exact epoch becomes epoch+1ns unless Spec.Epoch asks for it), children sorted by name, xattrs sorted
 // by key with unique keys. The root is always a directory.
 func Expand(s Spec) *Node {
 	s.Kind = Dir
@@ -229,6 +230,9 @@ func expand(s Spec, isRoot bool, depth int) *Node {
 	}
 	if n.Sec == 0 && n.Nsec == 0 {
 		n.Nsec = 1
+	}
+	if s.Epoch { // only on request: archivers treat the exact epoch as "no time"
+		n.Sec, n.Nsec = 0, 0
 	}
 	if n.UID == 1<<32-1 {
 		n.UID--
@@ -309,6 +313,9 @@ func expand(s Spec, isRoot bool, depth int) *Node {
 	return n
 }
 
+// IsEpoch reports whether the node's mtime is exactly the Unix epoch.
+func (n *Node) IsEpoch() bool { return n.Sec == 0 && n.Nsec == 0 }
+
 // Clone returns a deep copy (Data and xattr values are shared: they are never modified).
 func (n *Node) Clone() *Node {
 	c := *n
@@ -367,7 +374,12 @@ type Shape struct {
 	HighByteNames                       int // names with a byte >= 0x80
 	SpaceNames                          int // names with a space
 	Pre1970, Post2262                   int // mtime < 0 / mtime >= 2^63 ns
-	Bytes                               int64
+	EpochNodes                          int // mtime exactly the epoch
+	EpochKinds                          map[string]int
+	// EpochDirThenSibling counts non-empty directories with an epoch mtime whose parent has a
+	// non-epoch mtime and gets a further entry after them (in name order, the order of a walk)
+	EpochDirThenSibling int
+	Bytes               int64
 }
 
 const post2262Sec = 9223372036 // 2^63 ns = 9223372036.854775808 s
@@ -378,7 +390,7 @@ func Post2262(sec, nsec int64) bool {
 }
 
 func ShapeOf(root *Node) *Shape {
-	sh := &Shape{Kinds: map[string]int{}}
+	sh := &Shape{Kinds: map[string]int{}, EpochKinds: map[string]int{}}
 	var walk func(n *Node, depth int)
 	walk = func(n *Node, depth int) {
 		sh.Nodes++
@@ -412,6 +424,17 @@ func ShapeOf(root *Node) *Shape {
 		}
 		if Post2262(n.Sec, n.Nsec) {
 			sh.Post2262++
+		}
+		if n.IsEpoch() {
+			sh.EpochNodes++
+			sh.EpochKinds[n.Kind]++
+		}
+		if n.Kind == Dir && !n.IsEpoch() {
+			for i, k := range n.Kids {
+				if k.Kind == Dir && k.IsEpoch() && len(k.Kids) > 0 && i+1 < len(n.Kids) {
+					sh.EpochDirThenSibling++
+				}
+			}
 		}
 		sh.Kinds[n.Kind]++
 		switch n.Kind {
